@@ -125,3 +125,23 @@ def op_instance_call(run, fi: FunctionInfo, call: ast.Call) -> bool:
         if isinstance(r, ClassInfo) and r.is_subclass_of(run.project.cls("mygrad.operation_base.Operation")):
             return True
     return False
+
+
+def is_zero_expr(e: Optional[ast.AST]) -> bool:
+    """`e` denotes the value zero whatever its operands hold: a literal 0 / 0.0 / False, a signed literal, np.zeros(...) /
+    zeros_like(...), a scalar-type constructor applied to a zero (`np.float32(0)`, `x.dtype.type(0)`)."""
+    if e is None:
+        return False
+    if isinstance(e, ast.Constant):
+        return e.value is not None and not isinstance(e.value, (str, bytes)) and e.value == 0
+    if isinstance(e, ast.UnaryOp) and isinstance(e.op, (ast.USub, ast.UAdd)):
+        return is_zero_expr(e.operand)
+    if isinstance(e, ast.Call):
+        leaf = (dotted(e.func) or norm(e.func)).split(".")[-1]
+        if leaf in ("zeros", "zeros_like"):
+            return True
+        if len(e.args) == 1 and is_zero_expr(e.args[0]) and leaf in ("type", "float16", "float32", "float64", "float_", "float", "int", "int_", "asarray", "array", "dtype"):
+            return True
+        if leaf in ("full", "full_like") and len(e.args) >= 2 and is_zero_expr(e.args[1]):
+            return True
+    return False
